@@ -61,6 +61,14 @@ pub fn dispatch(op: &str, a: &[Arg]) -> Option<String> {
                 Err(_) => "NONE".into(),
             }
         }
+        // the same for an instant before 1970: dos_try_from_neg n  means the timestamp -n
+        "dos_try_from_neg" => {
+            let odt = time::OffsetDateTime::from_unix_timestamp(-(a[0].n() as i64)).unwrap();
+            match DateTime::try_from(odt) {
+                Ok(dt) => dt_obs(&dt),
+                Err(_) => "NONE".into(),
+            }
+        }
         // closed form of C18_pack_unpack over all 2^32 pairs (oracle; run in release)
         "dos_all" => {
             let lo = a[0].n() as u32;
